@@ -201,6 +201,23 @@ type PValued struct {
 	N  string `db:"n"`
 }
 
+// RNode embeds a pointer to itself; ROuter and ROuter2 reach that cycle from outside it
+// (by value and through a pointer): Prepare must report the recursion, wherever it starts.
+type RNode struct {
+	*RNode
+	ID int `db:"id"`
+}
+
+type ROuter struct {
+	RNode
+	Name string `db:"name"`
+}
+
+type ROuter2 struct {
+	*ROuter
+	N int `db:"n"`
+}
+
 // ScanKinds has Scanner members of non-struct kinds.
 type ScanKinds struct {
 	ID   int     `db:"id"`
